@@ -13,10 +13,13 @@ use std::{
         Arc,
     },
 };
+#[cfg(not(kani))]
 use tokio::{
     fs::{File, OpenOptions},
     io::AsyncWriteExt,
 };
+#[cfg(kani)]
+use iggy::verif_model::fs::{io_model::AsyncWriteExt, File, OpenOptions};
 use tracing::{error, trace};
 
 /// A dedicated struct for writing to the log file.
